@@ -163,7 +163,7 @@ func c09(c *Ctx) {
 	// ---- part 1b: the merge plans of C05 (all plan classes), every output decoded
 	mergeWorkload(c, sliceDec)
 	// ---- part 1: files written now
-	n := c.N(600, 8000)
+	n := c.N(600, 24000)
 	tallEvery := c.N(12, 12)
 	for i := 0; i < n; i++ {
 		if !c.Mine(i) {
